@@ -11,6 +11,7 @@ import (
 	"fmt"
 	"os"
 	"path/filepath"
+	"runtime/debug"
 	"sort"
 	"strings"
 	"sync"
@@ -435,17 +436,30 @@ func (g *Rng) Bytes(n int) []byte {
 	return b
 }
 
-// Parallel runs fn(worker, i) for i in [0,n) on `workers` goroutines.
+// Parallel runs fn(worker, i) for i in [0,n) on `workers` goroutines. A panic
+// in a worker is re-raised on the calling goroutine (with the worker's stack).
 func Parallel(workers, n int, fn func(w, i int)) {
 	if workers < 1 {
 		workers = 1
 	}
 	var next int64 = -1
 	var wg sync.WaitGroup
+	var pmu sync.Mutex
+	var firstPanic interface{}
 	for w := 0; w < workers; w++ {
 		wg.Add(1)
 		go func(w int) {
 			defer wg.Done()
+			defer func() {
+				if e := recover(); e != nil {
+					pmu.Lock()
+					if firstPanic == nil {
+						firstPanic = fmt.Sprintf("%v\n%s", e, debug.Stack())
+					}
+					pmu.Unlock()
+					atomic.StoreInt64(&next, int64(n)) // stop the other workers
+				}
+			}()
 			for {
 				i := int(atomic.AddInt64(&next, 1))
 				if i >= n {
@@ -456,6 +470,16 @@ func Parallel(workers, n int, fn func(w, i int)) {
 		}(w)
 	}
 	wg.Wait()
+	if firstPanic != nil {
+		panic(firstPanic)
+	}
+}
+
+// Try runs f and returns its panic value, if any.
+func Try(f func()) (pan interface{}) {
+	defer func() { pan = recover() }()
+	f()
+	return nil
 }
 
 func Hex(b []byte) string { return hex.EncodeToString(b) }
@@ -480,4 +504,22 @@ func (r *Run) RequireSub(sub string) {
 	if !r.AnyCell(func(k string) bool { return strings.Contains(k, sub) }) {
 		r.Inconclusive("coverage floor missed: no cell containing " + sub + " observed")
 	}
+}
+
+// Parallel is vf.Parallel with every item guarded: a panic escaping from an
+// item (the monitors recover the panics they expect themselves) is recorded
+// as a violation with the stack, and the remaining items still run.
+func (r *Run) Parallel(workers, n int, fn func(w, i int)) {
+	Parallel(workers, n, func(w, i int) {
+		defer func() {
+			if e := recover(); e != nil {
+				st := string(debug.Stack())
+				if len(st) > 1800 {
+					st = st[:1800]
+				}
+				r.Fail("unexpected-panic", fmt.Sprintf("item %d: unexpected panic: %v", i, e), st)
+			}
+		}()
+		fn(w, i)
+	})
 }
